@@ -341,7 +341,7 @@ pub fn run(args: &Args) {
 	quiet_panics();
 	let mut out = Out::new(&args.out);
 	out.rule = "2–4 sources, each without a tile or with a tile from the independent MVT encoder (overlapping layer names, different key/value tables incl. duplicates and int64/sint64 twins, differing extents/versions, empty layers; a few tiles with a repeated layer name = model only), stored plain / gzip / brotli; the real from_vectortiles_merged built from VPL, read through get_tile_data and (2 of 3 cases) get_tile_stream with staggered sources (source i of k yields (k-i)*c times, c seeded 0..3, so earlier sources complete later); oracle: independent decoder's reading of the output vs per-name concatenation of the inputs' features in source order (extent/version of a merged layer not judged), existence, declared compression. non-trivial: at least two sources have the tile and share a non-empty layer name; distinct by case text".into();
-	out.notes.push("checklist: 1 thresholds = sweep_table_sizes (tag-index width border while merging) + extents/versions 0,1,4095..4097,u32::MAX; 2 faults = emit_faults (read error, wrong codec; plain bytes in a brotli-declared source are accepted by the brotli crate itself and not judged); 3 payloads = empty tile, one-byte, identical duplicates, truncated; 4 options: the operation has none; 5 reuse = second lookup/stream on the same object; 6 order = staggered sources; 7 n.a. (no HTTP); 8 coordinates = zoom 0..31 incl. 32-grid borders; 9 encoder freedoms = indep_mvt styles (unknown/extension fields and unpacked or split packed tag lists are rejected/not merged by the decoder by design and are not generated); 10 paths = stream vs lookup byte for byte, single present source vs plain re-encode".into());
+	out.notes.push("checklist: 1 thresholds = sweep_table_sizes (tag-index width border while merging) + extents/versions 0,1,4095..4097,u32::MAX; 2 faults = emit_faults (read error, wrong codec; plain bytes in a brotli-declared source are accepted by the brotli crate itself and not judged); 3 payloads = empty tile, one-byte, identical duplicates, truncated; 4 options: the operation has none; 5 reuse = second lookup/stream on the same object; 6 order = staggered sources; 7 n.a. (no HTTP); 8 coordinates = zoom 0..31 incl. 32-grid borders; 9 encoder freedoms = indep_mvt styles (unknown/extension fields and unpacked or split packed tag lists are rejected/not merged by the decoder by design and are not generated); 10 paths = stream vs lookup byte for byte, single present source vs plain re-encode; 1b counter confusion: number of sources vs number of sources that have the tile vs number of layers per name all vary independently; 11 fallbacks: a merged layer keeps the FIRST layer's extent and version (not judged: the statement fixes id, geometry bytes and properties only - note that geometry bytes of a later layer with another extent are NOT rescaled), a single present source is delivered as plain re-encoding".into());
 	let dir = args.out.join("c10-data");
 	std::fs::create_dir_all(&dir).unwrap();
 	let runner = Runner { rt: runtime(), dir };
